@@ -21,7 +21,8 @@ EXTENDS Integers, Sequences, FiniteSets, TLC, Json
 CONSTANTS Last,        \* rows and columns 1..Last of sheet 1 are in play (far from the real grid edge)
           MaxK,        \* insert / delete / move 1..MaxK rows or columns at a time
           MaxD,        \* move by -MaxD..MaxD
-          MaxSteps
+          MaxSteps,
+          Mode         \* "structural": insert / delete / move / clear / undo; "clipboard": cut and copy areas (C16)
 
 Bottom == 0     \* the image of a deleted row / column
 MaxRC == 999    \* stands for "the last row / column" in whole-column and whole-row ranges
@@ -223,9 +224,82 @@ CutPaste(r, c, tr, tc) ==
   /\ steps' = steps + 1
   /\ trail' = Append(trail, [a |-> a, cells |-> cells', rowh |-> rowh', colw |-> colw', links |-> links', cf |-> cf', names |-> names'])
 
+(* ---- C16: cut and paste moves meaning, copy and paste translates it -------------------------------- *)
+(* area: rows r1..r2, columns c1..c2 of sheet 1; pasted with its top-left corner at (ts, tr, tc)         *)
+InArea(s, r, c, A) == s = 1 /\ r \in A.r1..A.r2 /\ c \in A.c1..A.c2
+InDest(s, r, c, A, ts, dr, dc) == s = ts /\ (r - dr) \in A.r1..A.r2 /\ (c - dc) \in A.c1..A.c2
+RefInside(ref, A) == ref.s = 1 /\ ref.r1 >= A.r1 /\ ref.r2 <= A.r2 /\ ref.c1 >= A.c1 /\ ref.c2 <= A.c2
+RefMeets(ref, s, ra, rb, ca, cb) == ref.s = s /\ ~(ref.r2 < ra \/ ref.r1 > rb \/ ref.c2 < ca \/ ref.c1 > cb)
+(* a reference after a cut: it follows the cells it pointed to if they all moved, is untouched if none did *)
+CutRef(ref, A, ts, dr, dc) ==
+  IF ref.st # "ok" \/ ref.kind = "name" THEN ref
+  ELSE IF ref.kind \in {"cols", "rows"} THEN [ref EXCEPT !.st = "open"]          \* a whole column always meets the area
+  ELSE IF RefInside(ref, A) THEN [ref EXCEPT !.s = ts, !.r1 = ref.r1 + dr, !.r2 = ref.r2 + dr, !.c1 = ref.c1 + dc, !.c2 = ref.c2 + dc]
+  ELSE IF RefMeets(ref, 1, A.r1, A.r2, A.c1, A.c2) \/ RefMeets(ref, ts, A.r1 + dr, A.r2 + dr, A.c1 + dc, A.c2 + dc) THEN [ref EXCEPT !.st = "open"]
+  ELSE ref
+CutContent(v, A, ts, dr, dc) ==
+  IF v.k # "f" THEN v
+  ELSE LET rs == [j \in 1..Len(v.refs) |-> CutRef(v.refs[j], A, ts, dr, dc)] IN
+       [v EXCEPT !.refs = rs, !.keep = v.keep /\ \A j \in 1..Len(rs) : rs[j].st = "ok"]
+CutArea(A, ts, tr, tc) ==
+  LET dr == tr - A.r1  dc == tc - A.c1
+      a == [op |-> "copy_paste", s |-> 0, r |-> A.r1, c |-> A.c1, w |-> A.c2 - A.c1 + 1, h |-> A.r2 - A.r1 + 1, ts |-> ts - 1, tr |-> tr, tc |-> tc, cut |-> TRUE]
+      NM == {[nm EXCEPT !.ref = CutRef(nm.ref, A, ts, dr, dc)] : nm \in names}
+      P(S) == Propagate(S, NM)
+      moved == {[x EXCEPT !.s = ts, !.r = x.r + dr, !.c = x.c + dc, !.v = CutContent(x.v, A, ts, dr, dc)] : x \in {y \in cells : InArea(y.s, y.r, y.c, A)}}
+      stay == {[x EXCEPT !.v = CutContent(x.v, A, ts, dr, dc)] : x \in {y \in cells : ~InArea(y.s, y.r, y.c, A) /\ ~InDest(y.s, y.r, y.c, A, ts, dr, dc)}} IN
+  /\ cells' = P(P(P(moved \cup stay)))
+  /\ links' = IF ts = 1 THEN {p \in links : ~InArea(1, p[1], p[2], A) /\ ~InDest(1, p[1], p[2], A, ts, dr, dc)} \cup {<<p[1] + dr, p[2] + dc>> : p \in {q \in links : InArea(1, q[1], q[2], A)}}
+              ELSE {p \in links : ~InArea(1, p[1], p[2], A)}
+  /\ cf' = [cf EXCEPT !.st = "open", !.fref = [cf.fref EXCEPT !.st = "open"]]
+  /\ names' = NM
+  /\ UNCHANGED <<rowh, colw>>
+  /\ prev' = Book
+  /\ steps' = steps + 1
+  /\ trail' = Append(trail, [a |-> a, cells |-> cells', rowh |-> rowh', colw |-> colw', links |-> links', cf |-> cf', names |-> names', linksopen |-> (ts # 1)])
+
+(* a copied formula: relative parts shifted by the paste offset, absolute parts and explicit sheets kept *)
+Shift1(p, abs, d) == IF abs THEN p ELSE p + d
+CopyRef(ref, hostS, ts, dr, dc) ==
+  IF ref.st # "ok" \/ ref.kind = "name" THEN ref
+  ELSE LET s2 == IF ref.s = hostS THEN ts ELSE ref.s
+           r1 == IF ref.kind = "cols" THEN ref.r1 ELSE Shift1(ref.r1, ref.ar1, dr)
+           r2 == IF ref.kind = "cols" THEN ref.r2 ELSE Shift1(ref.r2, ref.ar2, dr)
+           c1 == IF ref.kind = "rows" THEN ref.c1 ELSE Shift1(ref.c1, ref.ac1, dc)
+           c2 == IF ref.kind = "rows" THEN ref.c2 ELSE Shift1(ref.c2, ref.ac2, dc) IN
+       IF r1 < 1 \/ r2 < 1 \/ c1 < 1 \/ c2 < 1 THEN [ref EXCEPT !.st = "referr"]
+       \* a range is written top-left : bottom-right; when mixed $ flags make the ends cross, each coordinate keeps its flag
+       ELSE LET swapR == r1 > r2  swapC == c1 > c2 IN
+            [ref EXCEPT !.s = s2,
+                        !.r1 = IF swapR THEN r2 ELSE r1, !.r2 = IF swapR THEN r1 ELSE r2, !.ar1 = IF swapR THEN ref.ar2 ELSE ref.ar1, !.ar2 = IF swapR THEN ref.ar1 ELSE ref.ar2,
+                        !.c1 = IF swapC THEN c2 ELSE c1, !.c2 = IF swapC THEN c1 ELSE c2, !.ac1 = IF swapC THEN ref.ac2 ELSE ref.ac1, !.ac2 = IF swapC THEN ref.ac1 ELSE ref.ac2]
+CopyContent(v, hostS, ts, dr, dc) ==
+  IF v.k # "f" THEN v ELSE [v EXCEPT !.refs = [j \in 1..Len(v.refs) |-> CopyRef(v.refs[j], hostS, ts, dr, dc)], !.keep = FALSE]
+CopyArea(A, ts, tr, tc) ==
+  LET dr == tr - A.r1  dc == tc - A.c1
+      a == [op |-> "copy_paste", s |-> 0, r |-> A.r1, c |-> A.c1, w |-> A.c2 - A.c1 + 1, h |-> A.r2 - A.r1 + 1, ts |-> ts - 1, tr |-> tr, tc |-> tc, cut |-> FALSE]
+      P(S) == Propagate(S, names)
+      pasted == {[x EXCEPT !.s = ts, !.r = x.r + dr, !.c = x.c + dc, !.v = CopyContent(x.v, x.s, ts, dr, dc)] : x \in {y \in cells : InArea(y.s, y.r, y.c, A)}}
+      \* whoever reads a cell of the target area reads something new
+      stay == {IF x.v.k = "f" /\ (\E j \in 1..Len(x.v.refs) : x.v.refs[j].st = "ok" /\ x.v.refs[j].kind # "name" /\ RefMeets(x.v.refs[j], ts, A.r1 + dr, A.r2 + dr, A.c1 + dc, A.c2 + dc))
+                 THEN [x EXCEPT !.v.keep = FALSE] ELSE x
+               : x \in {y \in cells : ~InDest(y.s, y.r, y.c, A, ts, dr, dc)}} IN
+  /\ cells' = P(P(P(pasted \cup stay)))
+  /\ cf' = [cf EXCEPT !.st = "open", !.fref = [cf.fref EXCEPT !.st = "open"]]     \* whether formats are copied along is not the statement's business
+  /\ UNCHANGED <<rowh, colw, links, names>>
+  /\ prev' = Book
+  /\ steps' = steps + 1
+  /\ trail' = Append(trail, [a |-> a, cells |-> cells', rowh |-> rowh', colw |-> colw', links |-> links', cf |-> cf', names |-> names', linksopen |-> TRUE])
+
+Areas == {[r1 |-> 2, r2 |-> 2, c1 |-> 2, c2 |-> 2], [r1 |-> 3, r2 |-> 3, c1 |-> 3, c2 |-> 3], [r1 |-> 1, r2 |-> 1, c1 |-> 1, c2 |-> 1], [r1 |-> 4, r2 |-> 4, c1 |-> 3, c2 |-> 4],
+          [r1 |-> 2, r2 |-> 3, c1 |-> 2, c2 |-> 3], [r1 |-> 1, r2 |-> 3, c1 |-> 1, c2 |-> 2], [r1 |-> 3, r2 |-> 3, c1 |-> 1, c2 |-> 4], [r1 |-> 1, r2 |-> 5, c1 |-> 5, c2 |-> 5]}
+PasteTargets == {<<1, 8, 8>>, <<1, 7, 2>>, <<2, 6, 6>>, <<2, 2, 2>>, <<1, 1, 7>>}
+ClipNext == \E A \in Areas, t \in PasteTargets : CutArea(A, t[1], t[2], t[3]) \/ CopyArea(A, t[1], t[2], t[3])
+
 SNext ==
   /\ steps < MaxSteps
-  /\ \/ \E i \in 1..Last, k \in 1..MaxK : InsRows(i, k) \/ InsCols(i, k) \/ DelRows(i, k) \/ DelCols(i, k)
+  /\ IF Mode = "clipboard" THEN ClipNext ELSE
+     \/ \E i \in 1..Last, k \in 1..MaxK : InsRows(i, k) \/ InsCols(i, k) \/ DelRows(i, k) \/ DelCols(i, k)
      \/ \E i \in 1..Last, n \in 1..MaxK, d \in ((0 - MaxD)..MaxD) \ {0} : MoveRows(i, n, d) \/ MoveCols(i, n, d)
      \/ \E r \in 1..5, c \in 1..5 : Clear(r, c)
      \/ Undo
